@@ -309,6 +309,29 @@ class Fn:
                 out.append((n, self.tx(n.args[0])))
         return out
 
+    def structured(self):
+        """the whole output of a function whose body is straight-line code with simple loops over f.write statements:
+        the writes in order, a loop as a repetition.  None when the body has any other shape."""
+        def is_write(st):
+            return isinstance(st, ast.Expr) and isinstance(st.value, ast.Call) and ast.unparse(st.value.func) == "f.write" \
+                and len(st.value.args) == 1 and not st.value.keywords
+
+        def has_call_to_writer(st):
+            return any(isinstance(n, ast.Call) and (ast.unparse(n.func) in ("f.write", "_export", "_export_subgraph")) for n in ast.walk(st))
+        parts = []
+        for st in self.fn.body:
+            if is_write(st):
+                parts.append(self.tx(st.value.args[0]))
+            elif isinstance(st, ast.For) and not st.orelse and all(is_write(x) for x in st.body):
+                parts.append(("Star", ("Cat", [self.tx(x.value.args[0]) for x in st.body])))
+            elif isinstance(st, (ast.Assign, ast.ImportFrom, ast.Import)) and not has_call_to_writer(st):
+                continue
+            elif isinstance(st, ast.Expr) and isinstance(st.value, ast.Constant):
+                continue
+            else:
+                return None
+        return ("Cat", parts)
+
     def returns(self):
         rs = [n for n in self.nodes if isinstance(n, ast.Return) and n.value is not None]
         need(rs, "method %s returns nothing" % self.fn.name)
@@ -474,8 +497,9 @@ def compute():
     for s in stmts:
         if isinstance(s, ast.FunctionDef):
             need(s.name in ("_export", "_export_subgraph"), "model_export_to_file: unexpected nested function " + s.name)
-            inner += [t for _, t in Fn(s, consts).writes()]
-    need(len(inner) >= 6, "model_export_to_file: output statements not found")
+            whole = Fn(s, consts).structured()
+            inner += [whole] if whole is not None else [t for _, t in Fn(s, consts).writes()]
+    need(len(inner) >= 4, "model_export_to_file: output statements not found")
     model_doc = ("Cat", [top[0][1], ("Star", ("Alt", inner)), top[1][1]])
 
     # ---- metamodel export
